@@ -208,7 +208,7 @@ def run_job(unit, job, c_path, workdir, tier):
             res['results'] = allres
             if res['status'] == 'timeout' and any(r['status'] == 'FAILURE' and r.get('description') != 'VERIF_REACH' for r in allres):
                 res['status'] = 'ok'      # a refuted obligation decides the job; the timed-out ones are listed as undecided statuses
-            res['backend'] = 'SAT (minisat2, cbmc default), one process per obligation'
+            res['backend'] = 'SAT (%s), one cbmc process per chunk of %d obligations' % ('kissat via --external-sat-solver' if 'kissat' in job.get('cbmc_flags', []) else 'minisat2, cbmc default', chunk)
         else:
             cmd = cbmc_cmd(job, binary)
             res['cmds'].append(' '.join(cmd))
@@ -222,7 +222,7 @@ def run_job(unit, job, c_path, workdir, tier):
                     res['status'] = 'error'; res['note'] = 'cbmc rc=%d: %s' % (rc, ' | '.join(errs)[-600:] if errs else out[-600:])
                 else:
                     res['results'] = results; res['solver_s'] = solver
-                    res['backend'] = job.get('backend_note', 'SAT (minisat2, cbmc default)')
+                    res['backend'] = job.get('backend_note', 'SAT (kissat via --external-sat-solver)' if 'kissat' in job.get('cbmc_flags', []) else 'SAT (minisat2, cbmc default)')
                     ign = [m for m in msgs if 'ignoring' in m]
                     if ign:
                         res['status'] = 'error'; res['note'] = 'cbmc ignored a construct: ' + ign[0]
